@@ -294,7 +294,7 @@ func cmdCheck(args []string) int {
 	}
 	obls = append(obls, mc.obls...)
 	// solve
-	cfg := &SolverCfg{Timeout: 20 * time.Second, WorkDir: workDir(), Seed: seed}
+	cfg := &SolverCfg{Timeout: 45 * time.Second, WorkDir: workDir(), Seed: seed}
 	if *tier == "thorough" {
 		cfg.Timeout = 120 * time.Second
 		cfg.Agree = true
